@@ -19,17 +19,21 @@
 (* or lfs.fetchinclude / lfs.fetchexclude; an empty include set selects     *)
 (* everything): only selected paths are fetched and materialised, the      *)
 (* others stay what they were.                                             *)
+(*   bref2      objects that sit in the LFS store of a repository B names  *)
+(*              in objects/info/alternates (a reference store): as good as *)
+(*              local - whatever command needs such an object takes it     *)
+(*              from there (link or copy) instead of going without         *)
 (***************************************************************************)
 EXTENDS Repo
 
-VARIABLES published, cloned, bref, bstore, bwt, bdone
-cvars == <<rvars, published, cloned, bref, bstore, bwt, bdone, steps, hist>>
-CView == <<rvars, published, cloned, bref, bstore, bwt, bdone>>
+VARIABLES published, cloned, bref, bstore, bwt, bdone, bref2
+cvars == <<rvars, published, cloned, bref, bstore, bwt, bdone, bref2, steps, hist>>
+CView == <<rvars, published, cloned, bref, bstore, bwt, bdone, bref2>>
 
 CInit == RepoInit /\ published = FALSE /\ cloned = FALSE /\ bref = NoCommit
-         /\ bstore = [o \in Oids |-> "absent"] /\ bwt = [p \in Paths |-> "absent"] /\ bdone = FALSE
+         /\ bstore = [o \in Oids |-> "absent"] /\ bwt = [p \in Paths |-> "absent"] /\ bdone = FALSE /\ bref2 = {}
 
-BUn == UNCHANGED <<published, cloned, bref, bstore, bwt, bdone>>
+BUn == UNCHANGED <<published, cloned, bref, bstore, bwt, bdone, bref2>>
 CCommit(b, p, blob, g) == ~published /\ Commit(b, p, blob, g) /\ BUn
 CMerge(b, o)           == ~published /\ Merge(b, o) /\ BUn
 
@@ -38,12 +42,12 @@ Publish ==           \* clone A pushes every branch through the pre-push hook
   /\ ~published /\ br["main"] # NoCommit /\ published' = TRUE
   /\ rr' = br /\ rt' = br /\ server' = server \cup AllOids
   /\ everRemote' = everRemote \cup ReachSet({br[b] : b \in Branches}, commits)
-  /\ UNCHANGED <<commits, br, head, local, cloned, bref, bstore, bwt, bdone>>
+  /\ UNCHANGED <<commits, br, head, local, cloned, bref, bstore, bwt, bdone, bref2>>
   /\ Log([a |-> "publish"])
 
 ServerLoses(o) ==
   /\ published /\ ~cloned /\ o \in server /\ server' = server \ {o}
-  /\ UNCHANGED <<commits, br, rr, rt, head, local, everRemote, published, cloned, bref, bstore, bwt, bdone>>
+  /\ UNCHANGED <<commits, br, rr, rt, head, local, everRemote, published, cloned, bref, bstore, bwt, bdone, bref2>>
   /\ Log([a |-> "serverloses", oid |-> o])
 
 TreeB == TreeOf(bref)
@@ -58,23 +62,31 @@ CloneB(skip) ==
      /\ bwt' = [p \in Paths |-> IF t[p] = "none" THEN "absent" ELSE IF t[p] = "raw" THEN "rawfile"
                                 ELSE IF skip THEN "pointer" ELSE "content"]
      /\ Log([a |-> "clone", skip |-> skip, wt |-> bwt', store |-> {o \in Oids : bstore'[o] = "valid"}])
-  /\ UNCHANGED <<commits, br, rr, rt, head, local, server, everRemote, published, bdone>>
+  /\ UNCHANGED <<commits, br, rr, rt, head, local, server, everRemote, published, bdone, bref2>>
 
 Perturb(p, k) ==     \* the user touches a tracked file
   /\ cloned /\ ~bdone /\ TreeB[p] \in Oids /\ bwt[p] \in {"pointer", "content"}
   /\ k \in {"edited", "missing", "otherptr"}
   /\ bwt' = [bwt EXCEPT ![p] = k]
-  /\ UNCHANGED <<commits, br, rr, rt, head, local, server, everRemote, published, cloned, bref, bstore, bdone>>
+  /\ UNCHANGED <<commits, br, rr, rt, head, local, server, everRemote, published, cloned, bref, bstore, bdone, bref2>>
   /\ Log([a |-> "perturb", p |-> p, kind |-> k])
 
 DropB(o) ==
   /\ cloned /\ ~bdone /\ bstore[o] = "valid" /\ bstore' = [bstore EXCEPT ![o] = "absent"]
-  /\ UNCHANGED <<commits, br, rr, rt, head, local, server, everRemote, published, cloned, bref, bwt, bdone>>
+  /\ UNCHANGED <<commits, br, rr, rt, head, local, server, everRemote, published, cloned, bref, bwt, bdone, bref2>>
   /\ Log([a |-> "dropb", oid |-> o])
+
+\* the object moves from B's own store into the reference store B's alternates file names
+ToReference(o) ==
+  /\ cloned /\ ~bdone /\ bstore[o] = "valid" /\ bstore' = [bstore EXCEPT ![o] = "absent"] /\ bref2' = bref2 \cup {o}
+  /\ UNCHANGED <<commits, br, rr, rt, head, local, server, everRemote, published, cloned, bref, bwt, bdone>>
+  /\ Log([a |-> "toreference", oid |-> o])
 
 Selected(inc, exc) == {p \in Paths : (inc = {} \/ p \in inc) /\ p \notin exc}
 SelOids(sel) == {TreeB[p] : p \in sel} \cap Oids
-Fetched(sel) == [o \in Oids |-> IF o \in SelOids(sel) /\ o \in server THEN "valid" ELSE bstore[o]]
+Fetched(sel) == [o \in Oids |-> IF o \in SelOids(sel) /\ (o \in server \/ o \in bref2) THEN "valid" ELSE bstore[o]]
+\* checkout downloads nothing, but what the reference store has is at hand for the files it has to write
+Adopted == [o \in Oids |-> IF o \in bref2 /\ (\E p \in Paths : TreeB[p] = o /\ bwt[p] \in {"pointer", "missing"}) THEN "valid" ELSE bstore[o]]
 \* a deleted file whose object is not available comes back as the pointer recorded for it
 \* (the acceptor also allows it to stay missing: neither touches anything of the user's)
 CheckedOut(st, sel) == [p \in Paths |-> IF p \notin sel THEN bwt[p]
@@ -86,13 +98,13 @@ Cmd(kind, inc, exc) ==         \* kind \in {"fetch", "pull", "checkout"}: the ve
   /\ cloned /\ ~bdone /\ bdone' = TRUE
   /\ (kind = "checkout" => inc = {} /\ exc = {})
   /\ LET sel == Selected(inc, exc)
-         st == IF kind = "checkout" THEN bstore ELSE Fetched(sel)
+         st == IF kind = "checkout" THEN Adopted ELSE Fetched(sel)
          wt == IF kind = "fetch" THEN bwt ELSE CheckedOut(st, sel)
          complete == \A o \in SelOids(sel) : st[o] = "valid"
      IN /\ bstore' = st /\ bwt' = wt
         /\ Log([a |-> kind, inc |-> inc, exc |-> exc, ok |-> complete, store |-> {o \in Oids : st[o] = "valid"}, wt |-> wt,
-                tree |-> TreeB, wtBefore |-> bwt])
-  /\ UNCHANGED <<commits, br, rr, rt, head, local, server, everRemote, published, cloned, bref>>
+                tree |-> TreeB, wtBefore |-> bwt, reference |-> bref2])
+  /\ UNCHANGED <<commits, br, rr, rt, head, local, server, everRemote, published, cloned, bref, bref2>>
 
 CNext == \/ \E b \in Branches, p \in Paths, blob \in Blobs, g \in Ages : CCommit(b, p, blob, g)
          \/ \E b, o \in Branches : CMerge(b, o)
@@ -100,7 +112,7 @@ CNext == \/ \E b \in Branches, p \in Paths, blob \in Blobs, g \in Ages : CCommit
          \/ \E o \in Oids : ServerLoses(o)
          \/ \E s \in BOOLEAN : CloneB(s)
          \/ \E p \in Paths, k \in {"edited", "missing", "otherptr"} : Perturb(p, k)
-         \/ \E o \in Oids : DropB(o)
+         \/ \E o \in Oids : DropB(o) \/ ToReference(o)
          \/ \E k \in {"fetch", "pull", "checkout"}, inc, exc \in SUBSET Paths : Cmd(k, inc, exc)
 CSpec == CInit /\ [][CNext]_cvars
 
